@@ -1219,7 +1219,21 @@ class Model(Family):
             code = RET_CODE[exc] if exc is not None else (2 if ret is None else int(ret))
             exp.append("JL [JZ %s; %s; JZ %s]" % (cz(code), coq_J_state(st[si]), cz(st[so]["index"])))
         ops = "[" + "; ".join(coq_op(case["desc"], o) for o in case["ops"]) + "]"
-        return "(let ts := %s in valid_tsb ts && check_both ts %s [%s])" % (ts, ops, "; ".join(exp))
+        # the same machine with EVERY sample tracked: its count array is num_samples; compare
+        # num_samples, the children sets and the roots (root_threshold) after every op
+        N = tab["N"]
+        allsamp = [1 if (f & 1) else 0 for f in obs["flags"]] + [len(tab["samples"])]
+        ts2 = coq_ts(tab, obs["flags"], tree_sites, obs["nsites"], allsamp, time_ranks(case["desc"]))
+        views = []
+        for ret, exc, si, so, _ivf in obs["steps"]:
+            x = st[si]
+            views.append("JL [jz_list %s; JL [%s]; jz_list %s]" % (
+                clist(x["num_samples"][:N]), "; ".join("jz_list " + clist(c) for c in x["children"][:N]),
+                clist(x["roots"])))
+        thr = int(case["opts"].get("root_threshold", 1))
+        return ("(let ts := %s in valid_tsb ts && check_both ts %s [%s]) && "
+                "(let ts := %s in valid_tsb ts && check_views ts %s %s [%s])"
+                % (ts, ops, "; ".join(exp), ts2, cz(thr), ops, "; ".join(views)))
 
     def nontrivial(self, case, obs):
         return len(obs["tab"]["bps"]) > 2 and len(case["ops"]) >= 4
